@@ -58,7 +58,22 @@ def c04_oracle(case):
     pts, faces = decode(res)
     if any(math.isnan(c) or math.isinf(c) for p in pts for c in p): return fail('finite_points', args=a, op=op)
     r = closed_oriented(len(pts), faces)
-    if r: return fail(r[0], detail=r[1], args=a, op=op, builder=op, **({'class': 'thread'} if op == 405 else {}))
+    if r:
+        # an open surface whose cap profile has a vertex within rounding distance of the line through two others is the
+        # near-collinear finding of C03 showing through the cap (same exact test on the input profile as in C03)
+        cls = {'class': 'thread'} if op == 405 else {}
+        try:
+            profs = []
+            if op == 400: n = int(a[1]); profs = [profile_of(a, 2, n)]
+            elif op == 402: n = int(a[1]); profs = [profile_of(a, 2, n), profile_of(a, 2 + 2 * n, n)]
+            elif op == 403: n = int(a[2]); profs = [profile_of(a, 3, n)]
+            elif op == 404: n = int(a[2]); profs = [profile_of(a, 4, n)]
+            for pr in profs:
+                ex = [(Fr(x), Fr(y)) for x, y in pr]
+                if len(ex) <= 60 and trioracle.near_collinear(ex): cls = {'class': 'near_collinear_vertices'}
+        except Exception:
+            pass
+        return fail(r[0], detail=r[1], args=a, op=op, builder=op, **cls)
     # translation-invariant: measure about the centroid, compare with the bounding box
     c0 = [sum(p[d] for p in pts) / len(pts) for d in range(3)]
     pts = [(p[0] - c0[0], p[1] - c0[1], p[2] - c0[2]) for p in pts]
